@@ -166,19 +166,26 @@ def run(pid, tier, seed, replay):
     ck.coverage.update({
         "evaluations": len(cases),
         "distinct_nontrivial": len(nt),
-        "rule": "table schema of 1..5 columns over Int32/Int64/Utf8/LargeUtf8/Boolean (+Utf8View) with names a,b,c,d,e,A,Ab; file schema derived from it: "
+        "rule": "flat stream: table schema of 1..5 columns over Int32/Int64/Utf8/LargeUtf8/Boolean (+Utf8View) with names a,b,c,d,e,A,Ab; file schema derived from it: "
                 "columns missing (1/5), sibling type (Int32<->Int64, Utf8<->LargeUtf8/Utf8View), type of another group, nullability flipped, name differing "
                 "in case only, 0..2 extra columns, shuffled order, every 8th identical; 0..6 rows over edge values (i32/i64 extremes, 2^31, 5e9, '', non-ASCII, NULLs); "
                 "expressions over the table schema: bare column (projection) or AND/OR/NOT trees of column-literal / column-column comparisons, IS [NOT] NULL, boolean columns; "
-                "non-trivial = the by-name adaptation succeeds on a non-empty batch whose file schema has a missing, cast or reordered column",
+                "non-trivial = the by-name adaptation succeeds on a non-empty batch whose file schema has a missing, cast or reordered column (flat stream only; "
+                "struct stream: struct column with 1..4 of the fields f1,f2,f3,f4,F1 read from a file struct with missing/extra/reordered/widened/narrowed fields, predicates s IS NULL, "
+                "s.f IS NULL, s.f, s.f <op> literal; e2e stream: two parquet files of different schemas in one ListingTable with explicit schema, SELECT * WHERE p, pushdown_filters off/on)",
         "case_kinds": kinds,
         "adaptation_succeeds": sum(1 for c in flat if c["ref_ok"]),
         "adaptation_fails": sum(1 for c in flat if not c["ref_ok"]),
         "with_missing_column": sum(1 for c in flat if c["missing"]),
         "with_cast": sum(1 for c in flat if c["casts"]),
+        "struct_cases_adaptable": sum(1 for c in cases if c["k"] == "struct" and c.get("ref_ok")),
+        "struct_cases_rejected": sum(1 for c in cases if c["k"] == "struct" and c.get("ref_ok") is False),
+        "e2e_cases_returning_rows": sum(1 for c in cases if c["k"] == "e2e" and c.get("nwant", 0) > 0),
+        "batch_adapter_panics_known_finding": sum(1 for c in cases if c.get("key")),
         "traces_validated_against_impl": len(set(owners)),
         "model_evaluations": len(terms),
-        "samples": [c for c in flat if c["ref_ok"] and c["casts"] and c["missing"] and c["rows"]][:2],
+        "samples": ([c for c in flat if c["ref_ok"] and c["casts"] and c["missing"] and c["rows"]][:2] or flat[:1])
+                   + [c for c in cases if c["k"] == "struct" and c.get("ref_ok")][:1] + [c for c in cases if c["k"] == "e2e" and c.get("nwant", 0) > 0][:1],
         "trusted_base": vlib.TRUSTED_COMMON + [
             "arrow cast / comparison kernels (the reference adaptation of the harness uses arrow's cast kernel for the value conversion itself; which column is "
             "read, whether a cast or NULL is used and the error cases are decided independently)",
